@@ -179,6 +179,10 @@ def mismatch_diffs(m):
                     d.append((f'row[{o["op"]}{",all" if o["all"] else ""}{",neg" if o["negate"] else ""}{",ws" if o["ws"] else ""}{",limit" if o["limit"] else ""}]{kind}',
                               dict(o=o, ranges=e['rows'][i]), g['rows'][i]))
             return d
+        if rec['ev'] == 'Load':
+            if not e.get('outcome'):
+                return [('load.' + rec['outcome'], 'ok|err', rec['outcome'])]
+            return [('load.invariants', 'StateOK(loaded store)', 'violated')]
         if rec['ev'] == 'ConcRun':
             d = []
             if not e.get('conforms'):
@@ -332,7 +336,7 @@ def attribute(m, diffs):
 
 READONLY_OWNER = {'Lookup': 'C03', 'TextSel': 'C04', 'AnnTextOf': 'C04', 'OffsetReport': 'C04', 'Utf8Byte': 'C12',
                   'ByteToChar': 'C12', 'TextOp': 'C07', 'TestRelation': 'C13', 'RelatedText': 'C06',
-                  'TestRelationRow': 'C13', 'RelatedRow': 'C06', 'Validate': 'C18', 'WebAnno': 'C17', 'Parse': 'C09', 'Query': 'C08', 'ConcRun': 'C20'}
+                  'TestRelationRow': 'C13', 'RelatedRow': 'C06', 'Validate': 'C18', 'WebAnno': 'C17', 'Parse': 'C09', 'Query': 'C08', 'ConcRun': 'C20', 'Load': 'C19'}
 
 
 def _has_offset(t):
@@ -365,6 +369,8 @@ def arg_features(rec):
             f.append('off=' + a['off']['bk'] + a['off']['ek'])
     elif ev == 'OffsetReport':
         f.append('m=%d' % a['m'])
+    elif ev == 'Load':
+        f.append('%s,%s,%s,arg=%s' % (a['format'], a['part'], a['op'], a['arg']))
     elif ev == 'ConcRun':
         f.append('ops=' + '+'.join(o['op'] for o in a['ops']))
         f.append('members=' + '+'.join(m['kind'] + ('S' if m['standoff'] else '') + ('C' if m['changed'] else '') for m in a['shape']['members']))
@@ -416,6 +422,8 @@ def arg_features(rec):
 def fingerprint(m, diffs):
     rec, exp = m['rec'], m['exp']
     paths = sorted(set(norm_path(p) for p, _, _ in diffs))
+    if exp.get('readonly') and rec['ev'] == 'Load':
+        return '|'.join(['Load', 'got=' + rec['outcome'], ','.join(paths), ','.join(arg_features(rec))])
     if exp.get('readonly') and rec['ev'] == 'ConcRun':
         return '|'.join(['ConcRun', 'got=' + rec['outcome'], ','.join(paths), ','.join(arg_features(rec))])
     if exp.get('readonly') and rec['ev'] == 'Query':
